@@ -118,6 +118,13 @@ def field_constraints(rng, col, rex_pool=None):
             else:
                 av = vals + ['extra']
             out['allowed_values'] = av
+        if ss and col['kind'] == 'str_obj' and r() < 0.15:     # (an unordered categorical has no min or max in pandas itself)
+            # limits on a string field (never discovered, but the format allows them): closed = may be attained, open = may not
+            for kind in ('min', 'max'):
+                if r() < 0.6:
+                    ext = min(ss) if kind == 'min' else max(ss)
+                    b = rng.choice([ext, ext, ext + 'a', ext[:-1] if ext else ext, rng.choice(ss)])
+                    out[kind] = {'value': b, 'precision': rng.choice(['closed', 'open'])}
         fam_ = S.backref_family_for(ss)
         if fam_ and r() < 0.8:
             # several expressions, the later ones with back-references or group conditionals: each expression is a
@@ -131,6 +138,12 @@ def field_constraints(rng, col, rex_pool=None):
     if fam != 'string' and r() < 0.12:
         # allowed_values on a non-string field: only the all-null case has a documented verdict
         out['allowed_values'] = rng.choice([[], [1, 2], ['a'], [0.5]])
+        if fam in ('int', 'real') and r() < 0.6:
+            nums_ = [v for v in CS.nonnull_numbers(col) if isinstance(v, (int, float)) and not isinstance(v, bool) and v == v
+                     and abs(v) < 2 ** 53]
+            if nums_:
+                keep = [v for v in sorted(set(nums_)) if r() < 0.6]
+                out['allowed_values'] = keep or [sorted(set(nums_))[0]]       # some of the column's own values allowed, the rest not
     if r() < 0.5:
         nn = sum(1 for v in col['values'] if v is None)
         out['max_nulls'] = max(0, nn + rng.choice([0, 0, -1, 1]))
